@@ -35,6 +35,8 @@ ASSUMPTIONS = [
     "the weighted histogram is only judged on a series in recording order",
     "ACF needs 1 <= lag < n, PACF 1 <= lag < n-1 (library preconditions); data whose variance is below 1e-8 "
     "(10x the library's 'nearly constant' guard of 1e-9) before or after the transformation are excluded and counted",
+    "an autocorrelation coefficient has the sign of the lag-k sum of cross products around the mean whichever "
+    "normalisation the estimator uses; judged only where unambiguous (n >= 10, k <= n/4, |r_k| >= 0.3)",
     "histogram bins: a sample within 1e-9 (relative) of a bin edge may be counted on either side",
     "the number of bins actually printed may be smaller than requested (the library reduces it when the range "
     "is narrow; not documented, accepted)",
